@@ -371,6 +371,17 @@ class Interp:
         path.effects.append(("call", fn["def"], tuple(_short(a) for a in args)))
         return [(path, sym("%s@%s:%d" % (fn.get("name"), body.name.split("::")[-1], blk.idx)))]
 
+    def concretize_bool(self, res):
+        """Fork symbolic boolean results into concrete ones (under recorded assumptions)."""
+        out = []
+        for p, v in res:
+            if v[0] in ("b", "diverge"):
+                out.append((p, v))
+            else:
+                for p2, val in self._truth(v, p):
+                    out.append((p2, B(val)))
+        return out
+
     def call_closure(self, clos, args, path, depth):
         """Apply an abstract closure value to arguments (FnOnce/Fn call)."""
         if clos[0] != "closure":
@@ -414,7 +425,7 @@ def _short(v):
     if k == "enum":
         n = "%s::%s" % (v[1].split("::")[-1], v[2])
         return n + ("(%s)" % ", ".join(_short(x) for x in v[3]) if v[3] else "")
-    if k == "sym":
+    if k in ("sym", "symint"):
         return "?" + v[1]
     if k == "free":
         return "$" + v[1]
